@@ -299,6 +299,29 @@ fn v1_responses() -> Result<Vec<(String, Vec<u8>)>, String> {
             }
         }
     }
+    // The shape the official servers send: a data part AND a signature part, then the checksum
+    // line over everything before it (the in-repo server sends the data part alone).
+    let body = "Region!STRING:0|BuildConfig!HEX:16|CDNConfig!HEX:16|BuildId!DEC:4|VersionsName!String:0\n## seqn = 2461791\nus|0123456789abcdef0123456789abcdef|fedcba9876543210fedcba9876543210|61491|1.15.7.61491\neu|00112233445566778899aabbccddeeff|ffeeddccbbaa99887766554433221100|61491|1.15.7.61491\n";
+    for (name, binary) in [("official-shape+base64-signature", false), ("official-shape+binary-signature", true)] {
+        let b = "a1b2c3";
+        let mut r = format!(
+            "MIME-Version: 1.0\r\nContent-Type: multipart/alternative; boundary=\"{b}\"\r\nFrom: Test/1.0\r\n\r\n--{b}\r\nContent-Type: text/plain\r\nContent-Disposition: version\r\n\r\n{body}\r\n"
+        )
+        .into_bytes();
+        if binary {
+            r.extend_from_slice(format!("--{b}\r\nContent-Type: application/octet-stream\r\nContent-Disposition: signature\r\n\r\n").as_bytes());
+            r.extend((0..256u32).map(|i| if i as u8 == b'-' { b'.' } else { (i * 7 + 3) as u8 }).map(|x| if x == b'-' { b'.' } else { x }));
+            r.extend_from_slice(b"\r\n");
+        } else {
+            r.extend_from_slice(format!("--{b}\r\nContent-Type: application/octet-stream\r\nContent-Disposition: signature\r\nContent-Transfer-Encoding: base64\r\n\r\n{}\r\n", "QUJDREVGR0hJSktMTU5PUFFSU1RVVldYWVo".repeat(3)).as_bytes());
+        }
+        r.extend_from_slice(format!("--{b}--\r\n").as_bytes());
+        let sum = hex::encode(<sha2::Sha256 as sha2::Digest>::digest(&r));
+        r.extend_from_slice(format!("Checksum: {sum}\r\n").as_bytes());
+        if checks::v1_layout(&r).is_some() && cascette_protocol::mime_parser::parse_v1_mime_response(&r).is_ok() {
+            out.push((name.to_string(), r));
+        }
+    }
     Ok(out)
 }
 
